@@ -782,6 +782,48 @@ static void simplifyApiCases(Rng& r, int count) {
   }
 }
 
+
+// ------------------------------------------------------------------------------------------------ lazy transform histories
+// Offset / Hull / Decompose / Simplify "mean what they say" whatever the history of the object: a CrossSection whose
+// transform is still pending (never looked at) must give bit for bit the result of an equal CrossSection whose transform
+// was materialised first (NumVert(), GetTolerance(), ToPolygons() called on it), and Simplify() with the default
+// tolerance must leave no vertex closer than the object's OWN (rescaled) tolerance to the line through its neighbours.
+static uint64_t bitsOf(double d) { uint64_t u; memcpy(&u, &d, 8); return u; }
+static bool samePolys(const Polygons& a, const Polygons& b) {
+  if (a.size() != b.size()) return false;
+  for (size_t i = 0; i < a.size(); i++) { if (a[i].size() != b[i].size()) return false; for (size_t j = 0; j < a[i].size(); j++) if (memcmp(&a[i][j], &b[i][j], sizeof(vec2)) != 0) return false; }
+  return true;
+}
+static void lazyApiCases(Rng& r, int count) {
+  for (int it = 0; it < count; it++) {
+    std::string desc; CrossSection base = genSection(r, (int)r.below(9), desc);
+    Polygons B0 = base.ToPolygons(); if (B0.empty()) continue;
+    LD x0, y0, x1, y1; bounds(B0, x0, y0, x1, y1); const double scale0 = (double)std::max(x1 - x0, y1 - y0);
+    const int pre = (int)r.below(3); const double t0 = scale0 * std::ldexp(1.0, -r.range(4, 12));
+    if (pre == 1) base = base.Simplify(t0); else if (pre == 2) base = base.SetTolerance(t0);
+    const double sx = r.below(2) ? rndIn(r, 2, 60) : rndIn(r, 0.05, 1), sy = r.below(2) ? rndIn(r, 2, 60) : rndIn(r, 0.05, 1), ang = r.below(2) ? 90.0 * r.below(4) : rndIn(r, -180, 180);
+    const vec2 tr(rndIn(r, -5, 5) * scale0, rndIn(r, -5, 5) * scale0); const int nx = (int)r.below(4);
+    auto xf = [&](const CrossSection& c) { CrossSection x = c.Scale({sx, sy}); if (nx >= 1) x = x.Rotate(ang); if (nx >= 2) x = x.Translate(tr); if (nx >= 3) x = x.Mirror({1.0, 0.3}); return x; };
+    CrossSection lazyIn = xf(base), matIn = xf(base);
+    const size_t nv = matIn.NumVert(); const double tm = matIn.GetTolerance(); Polygons PM = matIn.ToPolygons(); (void)nv;
+    LD a0, b0, a1, b1; if (PM.empty()) continue; bounds(PM, a0, b0, a1, b1); const double scale = (double)std::max(a1 - a0, b1 - b0);
+    const int op = (int)r.below(6); const double t = scale * std::ldexp(1.0, -r.range(3, 12)), dlt = (r.below(2) ? 1 : -1) * scale * rndIn(r, 0.01, 0.1); const int jt = (int)r.below(4), seg = r.range(6, 24);
+    auto apply = [&](const CrossSection& c) -> CrossSection {
+      switch (op) { case 0: case 1: return c.Simplify(0.0); case 2: return c.Simplify(t); case 3: return c.Offset(dlt, (JoinType)jt, 2.0, seg); case 4: return c.Hull();
+        default: { auto v = c.Decompose(); return v.empty() ? CrossSection() : v[0]; } } };
+    static const char* on[] = {"Simplify()", "Simplify()", "Simplify(t)", "Offset", "Hull", "Decompose[0]"};
+    CrossSection rl = apply(lazyIn), rm = apply(matIn);
+    Polygons RL = rl.ToPolygons(), RM = rm.ToPolygons();
+    std::string msg; char b[400];
+    if (!samePolys(RL, RM)) { snprintf(b, sizeof b, "%s of a CrossSection with a pending transform differs from %s of the same CrossSection after its transform was materialised (%zu vs %zu contours, %zu vs %zu vertices)", on[op], on[op], RL.size(), RM.size(), (size_t)rl.NumVert(), (size_t)rm.NumVert()); msg = b; }
+    else if (bitsOf(rl.GetTolerance()) != bitsOf(rm.GetTolerance())) { snprintf(b, sizeof b, "%s: GetTolerance() %.17g (pending transform) vs %.17g (materialised first)", on[op], rl.GetTolerance(), rm.GetTolerance()); msg = b; }
+    if (msg.empty() && op <= 1) for (auto& out : RL) { std::string e = exitCondition(out, tm); if (!e.empty()) { msg = "Simplify() with the default tolerance on a CrossSection with a pending transform (own tolerance " + std::to_string(tm) + "): " + e; break; } }
+    stat("lazy_api"); stat(std::string("lazy_api_") + on[op]);
+    char tag[240]; snprintf(tag, sizeof tag, "c12 lazyapi-%s pre=%d scale=(%.3g,%.3g) xf=%d op=%s", desc.c_str(), pre, sx, sy, nx, on[op]);
+    hz::emit(tag, "", "", msg.empty(), msg.empty() ? "" : msg + " base " + fmtPolys(B0));
+  }
+}
+
 int main(int argc, char** argv) {
   int nUnit = argc > 1 ? atoi(argv[1]) : 100, nOffset = argc > 2 ? atoi(argv[2]) : 60, nApi = argc > 3 ? atoi(argv[3]) : 40;
   Rng r(hz::envSeed());
@@ -793,6 +835,7 @@ int main(int argc, char** argv) {
   contourCases(r, nUnit);
   offsetCases(r, nOffset);
   simplifyApiCases(r, nApi);
+  lazyApiCases(r, nApi);
   printf("STATS");
   for (auto& kv : gStat) printf(" %s=%ld", kv.first.c_str(), kv.second);
   printf("\n");
